@@ -4,6 +4,7 @@ the total-charge clause. Block values are not decided."""
 import ast
 
 from ..cfg import CFG
+from ..pattern import find, pmatch
 from ..core import (phase_helpers, AnalysisError, assigned_targets, body_nodes, call_name, dotted, is_self_attr,
                     key_text, names_in, parent, root_name, stmts_of, unparse)
 
@@ -338,6 +339,33 @@ def check_flag_l(prog, rep, prop='C02'):
                             'to be %s when it is not; LegCharge.sort()/bunch() and the pipe '
                             'construction trust the claim' %
                             (q, x, key_text(st), x, flag, flag), st.lineno)
+    # a row sub-selection of the charges can make equal rows adjacent: `bunched` is not inherited
+    for rel in (CH, NPC):
+        m = prog.module(rel)
+        for q, f in m.functions.items():
+            sel = {}
+            for c in body_nodes(f):
+                e = None
+                if isinstance(c, ast.Call):
+                    e = pmatch('$x._set_charges($$y.charges[$$k])', c)
+                if isinstance(c, ast.Assign):
+                    e = pmatch('$x.charges = $$y.charges[$$k]', c)
+                if e and not isinstance(e['$$k'], ast.Slice):
+                    sel[e['$x']] = c
+            for x, c in sel.items():
+                for st in stmts_of(f):
+                    if isinstance(st, ast.Assign) and unparse(st.targets[0]) == x + '.bunched':
+                        inh = any(isinstance(a, ast.Attribute) and a.attr == 'bunched'
+                                  for a in ast.walk(st.value))
+                        rep.instance('FLAG-L-inherit', {'function': q, 'selection': unparse(c)[:60],
+                                                        'claim': key_text(st), 'inherits': inh})
+                        if inh:
+                            rep.violation('FLAG-L-inherit', m, q, 'bunched-inherited:' + x,
+                                          '`%s` keeps only some rows of the charges (`%s`); rows '
+                                          'that were separated by a removed block may now be '
+                                          'adjacent and equal, so `%s` cannot inherit the old '
+                                          '`bunched` claim (only is_blocked() proves it)' %
+                                          (q, unparse(c)[:60], key_text(st)), st.lineno)
     # literal True claims need a witness in the same function
     for rel in (CH, NPC):
         m = prog.module(rel)
